@@ -619,3 +619,21 @@ _c11_base4 = contracts
 
 def contracts():
     return _c11_base4() + [parameter_init_contract()]
+
+
+# what a type-specific argument leaves unspecified stays Undefined in the slot (so it is inherited)
+_c11_base5 = contracts
+
+
+def contracts():
+    from contracts import c01 as _c01
+    num = {"bounds": "bounds", "inclusive_bounds": "inclusive_bounds", "step": "step", "softbounds": "softbounds"}
+    extra = [_c01.constructor_contract("Number", num, "Number", plain_default=True, allow_undefined=True),
+             _c01.constructor_contract("Range", num, "Range", allow_undefined=True),
+             _c01.constructor_contract("Color", {"allow_named": "allow_named"}, "Color", allow_undefined=True),
+             _c01.constructor_contract("Bytes", {"regex": "regex"}, "Bytes", allow_undefined=True),
+             _c01.constructor_contract("String", {"regex": "regex"}, "String", qual_mod=_c01.MOD_Z, allow_undefined=True)]
+    for c in extra:
+        c.prop = PROP
+        c.clause_prefixes = ["argument "]
+    return _c11_base5() + extra
